@@ -51,6 +51,50 @@ def wrapper_table(ctx, clause):
         ctx.ob("R-SIB", clause, f, "pool selection: likelihood always uses the pool, priors only when parallelise_prior", ok_pool and "n_pool" in kw and src(kw["n_pool"]) == "self.n_pool", f"pool=`{src(pool)}`")
 
 
+def wrapper_values_rule(ctx, clause):
+    """The batch wrappers of Model hand back the evaluator's values (shared with C05: the stored log-likelihood is the model's)."""
+    # ---- C10.4 the batch wrappers hand back the evaluator's values ---------------------------------------------------
+    # what a wrapper returns is batch_evaluate_function(...) itself, at most cast to the configured dtype: anything that
+    # rewrites values on the way out (clip, nan_to_num with its default +/-inf replacement, where, maximum ...) makes the
+    # stored log-likelihood / log-prior differ from the user's function on legal values (-inf is a legal log-likelihood).
+    # Replacing NaN entries only (`v[isnan(v)] = c`, nan_to_num with posinf=inf and neginf=-inf) is allowed: NaN is not a
+    # value the property speaks about
+    from ..summ import summarise as _summ104
+
+    def _strip104(e):
+        while True:
+            if isinstance(e, ast.Call) and isinstance(e.func, ast.Attribute) and e.func.attr in ("astype", "copy") and not (isinstance(e.func.value, ast.Name) and e.func.value.id in ("np", "numpy")):
+                e = e.func.value
+            elif isinstance(e, ast.Call) and call_name(e) in ("np.asarray", "np.array", "np.ascontiguousarray", "numpy.asarray", "numpy.array") and e.args:
+                e = e.args[0]
+            elif isinstance(e, ast.Call) and call_name(e) in ("np.nan_to_num", "numpy.nan_to_num") and e.args:
+                kw = {k.arg: canon(k.value) for k in e.keywords}
+                if kw.get("posinf") in ("inf", "np.inf", "numpy.inf") and kw.get("neginf") in ("-inf", "-np.inf", "-numpy.inf"):
+                    e = e.args[0]
+                else:
+                    return e
+            else:
+                return e
+
+    for name in ("batch_evaluate_log_likelihood", "batch_evaluate_log_prior", "batch_evaluate_log_prior_unit_hypercube"):
+        f = ctx.fn(f"{M}.{name}")
+        ps_ = [pa_ for pa_ in _summ104(f.node) if pa_.end == "return"]
+        ok4, why4 = bool(ps_), ""
+        for pa_ in ps_:
+            core_ = _strip104(pa_.ret) if pa_.ret is not None else None
+            if not (isinstance(core_, ast.Call) and call_name(core_) == "batch_evaluate_function"):
+                ok4, why4 = False, f"a path returns `{src(pa_.ret)[:80] if pa_.ret is not None else None}`"
+                continue
+            for ef_ in pa_.effects:
+                if ef_[0] == "store" and isinstance(ef_[1], ast.Subscript) and _strip104(ef_[1].value) is not None and canon(_strip104(ef_[1].value)) == canon(core_):
+                    ix_ = ef_[1].slice
+                    if not (isinstance(ix_, ast.Call) and call_name(ix_) in ("np.isnan", "numpy.isnan") and ix_.args and canon(_strip104(ix_.args[0])) == canon(core_)):
+                        ok4, why4 = False, f"`{src(ef_[1])[:70]} = ...` rewrites entries of the result other than NaN"
+        ctx.ob("R-DOM", clause, f, "the wrapper returns the evaluator's values (dtype cast only; no clip / nan_to_num(+/-inf) / masked rewrite of non-NaN entries)", ok4, why4 or f"{len(ps_)} returning path(s)")
+    ctx.floor(clause, 3)
+
+
+
 def run(ctx):
     prog = ctx.prog
     # ---- C10.1 counter discipline ---------------------------------------
@@ -138,6 +182,8 @@ def run(ctx):
     c = FA(f).find_calls("batch_evaluate_function")
     ctx.ob("R-DOM", "C10.2", f, "unit-hypercube prior is evaluated on the unit-hypercube points directly", len(c) == 1 and src(_bef_args(c[0][1]).get("x")) == f.params()[1] and not any(isinstance(n, ast.Call) and call_name(n) == "self.from_unit_hypercube" for n in walk_no_nested(f.node)), "")
     ctx.floor("C10.2", 5)
+
+    wrapper_values_rule(ctx, "C10.4")
 
     # ---- C10.3 order-preserving primitives --------------------------------------
     bf = ctx.fn(MP + ":batch_evaluate_function")
@@ -319,6 +365,7 @@ CLAIM = {
 _MO = "nessai/model.py"
 _MPF = "nessai/utils/multiprocessing.py"
 MUTANTS = [
+    {"id": "likelihood-clipped-on-return", "file": "nessai/model.py", "old": "        return log_likelihood.astype(config.livepoints.logl_dtype)", "new": "        return np.nan_to_num(log_likelihood.astype(config.livepoints.logl_dtype))", "expect": "C10.4"},
     {"id": "double-count", "file": _MPF, "old": "    return _model.log_likelihood(x)\n", "new": "    _model.likelihood_evaluations += x.size\n    return _model.log_likelihood(x)\n", "expect": "likelihood_evaluations is written only"},
     {"id": "count-per-call", "file": _MO, "old": "        self.likelihood_evaluations += x.size\n        self.likelihood_evaluation_time", "new": "        self.likelihood_evaluations += 1\n        self.likelihood_evaluation_time", "expect": "counter grows by the number of points"},
     {"id": "count-only-without-pool", "file": _MO, "old": "        self.likelihood_evaluations += x.size\n        self.likelihood_evaluation_time", "new": "        if self.pool is None:\n            self.likelihood_evaluations += x.size\n        self.likelihood_evaluation_time", "expect": "counts its points exactly once"},
